@@ -119,6 +119,63 @@ def effect_findings(facts):
     return out
 
 
+QUOTE_LIKE = {"quote", "quote_spanned", "parse_quote", "parse_quote_spanned", "push_tokens", "format_ident", "macro_rules"}
+BUILD_MACROS = {"cfg", "env", "option_env", "line", "column", "file", "module_path", "include", "include_str", "include_bytes"}
+
+
+def buildcfg_findings(src_dir, rel_to):
+    """G-CFG (syntax tree of the generator's own source): the generator does not consult its OWN build configuration or
+    source position — no `cfg!(..)`, no `#[cfg(..)]` / `#[cfg_attr(..)]` other than `cfg(test)`, no `env!` / `option_env!`
+    / `line!` / `column!` / `file!` / `module_path!` / `include*!`. Token trees inside `quote!`-like macros are what the
+    generator EMITS and are skipped. Returns (findings, files scanned, tokens scanned)."""
+    from .expq import tokenize, parse_tts, Group, Tok
+    from .common import walk_files
+    out = []
+    nfiles = 0
+    ntok = [0]
+
+    def walk(tts, fname):
+        i = 0
+        while i < len(tts):
+            t = tts[i]
+            if isinstance(t, Group):
+                walk(t.items, fname)
+                i += 1
+                continue
+            ntok[0] += 1
+            nxt = tts[i + 1] if i + 1 < len(tts) else None
+            nxt2 = tts[i + 2] if i + 2 < len(tts) else None
+            is_bang = isinstance(nxt, Tok) and nxt.text == "!"
+            if t.kind == "ident" and is_bang and t.text in QUOTE_LIKE:
+                # skip the macro's argument group (and, for `quote_spanned! { span => .. }`, everything in it)
+                j = i + 2
+                while j < len(tts) and not isinstance(tts[j], Group):
+                    j += 1
+                i = j + 1
+                continue
+            if t.kind == "ident" and is_bang and t.text in BUILD_MACROS and isinstance(nxt2, Group):
+                out.append(("G-CFG", "%s %s!" % (fname, t.text),
+                            "`%s!(..)` in the generator: the expansion would depend on how / where the macro crate itself was built" % t.text,
+                            "%s:%d" % (fname, t.line)))
+            if t.text == "#" and isinstance(nxt, Group) and nxt.open == "[" and nxt.items:
+                head = nxt.items[0]
+                if isinstance(head, Tok) and head.text in ("cfg", "cfg_attr") and len(nxt.items) > 1 and isinstance(nxt.items[1], Group):
+                    inner = " ".join(x.text for x in nxt.items[1].items if isinstance(x, Tok))
+                    if not (head.text == "cfg" and inner.strip() == "test"):
+                        out.append(("G-CFG", "%s #[%s(%s)]" % (fname, head.text, inner[:40]),
+                                    "conditional compilation `#[%s(%s)]` in the generator: different builds of the macro crate would "
+                                    "generate different code" % (head.text, inner[:60]), "%s:%d" % (fname, t.line)))
+            i += 1
+
+    for p in sorted(walk_files(src_dir)):
+        if not p.endswith(".rs"):
+            continue
+        nfiles += 1
+        fname = os.path.relpath(p, rel_to)
+        walk(parse_tts(tokenize(open(p).read())), fname)
+    return out, nfiles, ntok[0]
+
+
 def optval_findings(facts):
     """G-OPTVAL: a boolean option of the attribute (`Option<SpanOpt<bool>>`, `Option<SpanOpt<FutureSend>>`) is read
     through its VALUE (with the default when absent). A presence predicate on it — `is_some()` / `is_none()` — makes
